@@ -37,6 +37,8 @@ TreeClauses ==
     <<"C17-PropsAndMdCopied-metadata-or-properties-file-intact-nowhere", ~MdNoLoss'>>,
     <<"C17-PropsAndMdCopied-properties-file-left-the-source", ~PropsStay'>>,
     <<"C17-NewestMdStays", ~NewestMdStays'>>,
+    <<"C17-NewestMdStays-newest-existing-metadata-file-removed-by-the-mirror",
+      E.ev = "op" /\ \E f \in MD : src[f] = Full /\ src'[f] = Absent /\ ~NewerInSource(f)>>,
     <<"C17-Idempotent-complete-destination-file-changed",
       \E f \in Files : dst.final[f] = Full /\ dst'.final[f] # Full>>,
     <<"C17-source-file-reappeared", \E f \in Files : src[f] = Absent /\ src'[f] # Absent>>,
@@ -120,7 +122,7 @@ TEnd ==
 (***************************************************************************)
 TVanish ==
   /\ E.ev = "vanish"
-  /\ IF E.f \notin Files \/ ~Vanishable(E.f) \/ pc # Idle
+  /\ IF E.f \notin Files \/ Kind(E.f) = "pr" \/ pc # Idle
      THEN Rej({"harness-vanished-a-protected-file"}) /\ UNCHANGED <<vars, seen, cur>>
      ELSE /\ Follow
           /\ hist' = [hist EXCEPT !.vanished = @ \cup {E.f}]
